@@ -9,6 +9,7 @@ na_file = os.path.join(ROOT, "tools", "not_applicable.json")
 if os.path.exists(na_file):
     NA_REASONS = json.load(open(na_file))
 checks, na = [], []
+NO_THOROUGH = set(open(os.path.join(ROOT, "tools", "no_thorough.txt")).read().split()) if os.path.exists(os.path.join(ROOT, "tools", "no_thorough.txt")) else set()
 REGISTERED = set(open(os.path.join(ROOT, "tools", "registered.txt")).read().split())
 for p in props:
     pid = p["id"]
@@ -19,7 +20,7 @@ for p in props:
     mod = importlib.import_module("vf.checks." + pid.lower())
     meta = getattr(mod, "META", {})
     pl = mod.plan("quick")
-    checks.append({
+    entry = {
         "property_id": pid,
         "quick_cmd": f"./check {pid} --tier quick",
         "thorough_cmd": f"./check {pid} --tier thorough",
@@ -33,7 +34,10 @@ for p in props:
         },
         "level_note": meta.get("note", "; ".join(pl.get("assumptions", [])) or "executions produced by the seeded workloads only"),
         "technique": meta.get("technique", "runtime monitoring: generated workloads + reference-model oracle"),
-    })
+    }
+    if pid in NO_THOROUGH:  # thorough tier not registered (see DESIGN.md 7.7): quick only
+        entry.pop("thorough_cmd")
+    checks.append(entry)
 m = {
     "version": 1,
     "setup_cmd": "/venv/bin/python -m pip install -q --no-index --find-links /opt/veriftools/wheels --target /verif/.deps icontract deal",
